@@ -11,6 +11,7 @@ import hashlib
 import glob
 import json
 import os
+import shutil
 import subprocess
 import sys
 
@@ -562,6 +563,44 @@ def alternating_saves(ctx):
                     os.remove(f)
 
 
+def save_names(ctx):
+    """directed: base names that end like one of the extensions without being one (model_json, mypkl), names with other
+    dots; what to_file(name) wrote, from_file(name) reads"""
+    from pycel import ExcelCompiler
+    spec = {'sheets': [['Sheet1', {'A1': 1, 'B1': '=A1*2', 'C1': '=B1&"x"'}]], 'names': {}, 'arrays': [], 'calc': None}
+    for name in ('model_json', 'mypkl', 'data.v2', 'x.yaml.bak', 'yml', 'a.b_pickle', 'plain', 'UPPER.JSON', 'tyaml'):
+        for types in (None, ('json',), ('pkl',), ('pickle', 'yaml')):
+            d = os.path.join(ctx.tmpdir, f'names-{name}-{"-".join(types or ("default",))}')
+            os.makedirs(d, exist_ok=True)
+            base = os.path.join(d, name)
+            case = {'kind': 'save-names', 'name': name, 'types': list(types or ())}
+            comp = wb.compile_mem(spec)
+            comp.evaluate('Sheet1!C1')
+            comp.set_value('Sheet1!A1', 21)
+            comp.evaluate('Sheet1!C1')
+            ctx.count('directed:save_names')
+            ctx.case(('save-names', name, types))
+            try:
+                if types is None:
+                    comp.to_file(base)
+                else:
+                    comp.to_file(base, file_types=types)
+                got = wb.outcome(ExcelCompiler.from_file(base).evaluate, 'Sheet1!C1')
+            except Exception as exc:
+                if not wb.raised_outside_harness(exc):
+                    raise
+                ctx.violation('load-raises/file-name-that-ends-like-an-extension' if name in (
+                    'model_json', 'mypkl', 'yml', 'a.b_pickle', 'tyaml') else 'load-raises/file-name',
+                    f'to_file({name!r}, file_types={types}) wrote {sorted(os.listdir(d))}; from_file({name!r}): '
+                    f'{wb.describe(exc)}', case)
+                continue
+            finally:
+                shutil.rmtree(d, ignore_errors=True)
+            if got != ('v', '42x'):
+                ctx.violation('value-differs-after-load/file-name', f'to_file({name!r}, file_types={types}) then '
+                              f'from_file({name!r}): C1 = {got!r}, the saved model has 42x', case)
+
+
 def relative_name_case(ctx):
     """directed: a model compiled from a workbook given by a relative file name; the name is part of what survives"""
     from pycel import ExcelCompiler
@@ -604,6 +643,7 @@ def run(ctx):
         save_sequences(ctx)
         alternating_saves(ctx)
         relative_name_case(ctx)
+        save_names(ctx)
     # save / load of the workbooks shipped with the repository
     realbooks.run_cases(ctx, realbooks.c03_case, realbooks.acyclic_books(), 6 if ctx.quick else 60, fraction=0.25)
     while not ctx.out_of_time():
@@ -637,6 +677,9 @@ def replay(ctx, case):
         return
     if case.get('kind') == 'alternating-saves':
         alternating_saves(ctx)
+        return
+    if case.get('kind') == 'save-names':
+        save_names(ctx)
         return
     if case.get('kind') == 'real-book':
         realbooks.c03_case(ctx, case['book'], case['case_seed'])
